@@ -51,26 +51,23 @@ def ephemeral_for(pub_jwk, rand=None):
     return rjwk.export(key, private=True)
 
 
+_MODES = {"dir": "dir", "ECDH-ES": "es-direct", "ECDH-1PU": "1pu-direct"}
+for _a in KW_SIZE:
+    _MODES[_a] = "kw"
+    _MODES["ECDH-ES+" + _a] = "es-kw"
+    _MODES["ECDH-1PU+" + _a] = "1pu-kw"
+for _a in RSA_ALGS:
+    _MODES[_a] = "rsa"
+for _a in ("A128GCMKW", "A192GCMKW", "A256GCMKW"):
+    _MODES[_a] = "gcmkw"
+for _a in ("PBES2-HS256+A128KW", "PBES2-HS384+A192KW", "PBES2-HS512+A256KW"):
+    _MODES[_a] = "pbes2"
+
+
 def _mode(alg):
-    if alg == "dir":
-        return "dir"
-    if alg in KW_SIZE:
-        return "kw"
-    if alg in RSA_ALGS:
-        return "rsa"
-    if alg.endswith("GCMKW"):
-        return "gcmkw"
-    if alg.startswith("PBES2-"):
-        return "pbes2"
-    if alg == "ECDH-ES":
-        return "es-direct"
-    if alg.startswith("ECDH-ES+"):
-        return "es-kw"
-    if alg == "ECDH-1PU":
-        return "1pu-direct"
-    if alg.startswith("ECDH-1PU+"):
-        return "1pu-kw"
-    raise RefError("unknown alg %r" % (alg,))
+    if alg not in _MODES:
+        raise RefError("unknown alg %r" % (alg,))
+    return _MODES[alg]
 
 
 def _agree(alg, mode, merged, enc, z, tag=None):
@@ -272,6 +269,8 @@ def recover_cek(alg, merged, enc, ek, jwk, tag, sender_jwk=None):
         p2c = merged["p2c"]
         if not isinstance(p2c, int) or isinstance(p2c, bool) or p2c < 1:
             raise RefError("bad p2c")
+        if p2c > 200000:
+            raise RefError("p2c too large for the reference")
         return aes_kw_unwrap(pbes2_kek(alg, b64.dec(jwk["k"]), b64.dec(merged["p2s"]), p2c), ek)
     epk = merged.get("epk")
     if not isinstance(epk, dict):
@@ -356,7 +355,7 @@ def decrypt(token, jwk, sender_jwk=None, index=None, limit=None):
             return body, p, merged
         except RefError as e:
             last = e
-        except (ValueError, KeyError, TypeError) as e:
+        except (ValueError, KeyError, TypeError, IndexError, AttributeError, OverflowError) as e:
             last = RefError("malformed: %r" % e)
     raise last
 
